@@ -7,6 +7,7 @@ M2  every exported scenario is replayed through KMeansMachine.fit (NumPy, and Da
     scenario's row composition): the trajectory of the code must be a path of TLC's state graph.
 M3  seeded real-valued data with random / k-means|| initialisation, recorded as rank traces and
     validated by TLC against specs/TraceLoop.tla."""
+import os
 import random
 from fractions import Fraction as F
 
@@ -114,7 +115,7 @@ def m3(ck, em, rng, ntraces):
         r = np.random.RandomState(seed)
         n = r.randint(8, 60)
         d = r.randint(1, 4)
-        k = r.randint(2, 5)
+        k = r.randint(1, 5)
         X = r.normal(size=(n, d)) * r.uniform(0.5, 3) + r.normal(size=(k, d))[r.randint(0, k, size=n)] * 4
         if r.rand() < 0.2:
             X = np.round(X)          # duplicates and ties
@@ -139,8 +140,19 @@ def m3(ck, em, rng, ntraces):
             traj = [fit(c, None) for c in range(1, cap + 1)]
             final = fit(cap, thr)
             m0 = fit(0, None)
-        except Exception as e:      # environmental failures of the initialiser are not verdicts
-            ck.notes.append("M3 driver skipped a scenario: %s" % type(e).__name__)
+        except Exception as e:
+            # environmental failures of the k-means|| initialiser (raised inside dask-ml / scikit-learn) are not
+            # verdicts; anything the library itself raises, and any failure with the plain "random" initialiser, is
+            import traceback
+            from ..common import REPO_SRC
+            tb = traceback.extract_tb(e.__traceback__)
+            own = bool(tb) and os.path.realpath(tb[-1].filename).startswith(os.path.realpath(REPO_SRC))
+            if method == "random" or own:
+                ck.violation("M3:KMeans:FitRaised", {"mechanism": "M3", "module": "TraceLoop",
+                             "meta": {"seed": seed, "n": int(n), "d": int(d), "k": int(k), "init": method, "cap": cap, "thr": thr},
+                             "detail": "%s: %s" % (type(e).__name__, e), "traceback": traceback.format_exc()[-1500:]})
+            else:
+                ck.notes.append("M3 driver skipped a scenario: %s" % type(e).__name__)
             continue
         cents = [np.array(m0.centroids_, dtype=float)] + [np.array(m.centroids_, dtype=float) for m in traj]
         if not np.all(np.isfinite(cents[0])):
